@@ -347,6 +347,31 @@ struct OptAdapter final : IOptimizer
             return evalWith(x, grad, prog, o, ST::OpenMPExecutor());
         }
     }
+    bool evaluateThrows(const VectorXd &x, const CostProgram &prog, const EvalOpts &o) const override
+    {
+        VectorXd g;
+        try
+        {
+            (void)evaluate(x, g, prog, o);
+        }
+        catch (const std::out_of_range &)
+        {
+            return true;
+        }
+        return false;
+    }
+    bool checkGradientsThrows(const VectorXd &x, const CostProgram &prog, bool threeCosts, int wsh) override
+    {
+        try
+        {
+            (void)checkGradients(x, prog, threeCosts, wsh, true, 1e-6, 1e-4);
+        }
+        catch (const std::out_of_range &)
+        {
+            return true;
+        }
+        return false;
+    }
     CheckResult checkGradients(const VectorXd &x, const CostProgram &prog, bool threeCosts, int wsh, bool defaults, double eps, double tol) override
     {
         TimeCostF tf{&prog};
